@@ -12,7 +12,7 @@ CONSTANTS
   UseAccounts = FALSE
   UseMineTo = FALSE
   UseCancelBySlate = FALSE
-  MaxAdv = 2
+  MaxAdv = 1
   MaxFork = 0
   UseScan = FALSE
   UseAccounts2 = FALSE
